@@ -82,6 +82,9 @@ pub struct C10 {
     /// enumerate every interleaving (small cases) instead of sampling schedules
     pub exhaustive: bool,
     pub max_schedules: usize,
+    /// the provider's sort_candidates makes nested dependency / candidate requests through
+    /// the SolverCache (see SortProbe::Deps)
+    pub reentrant_sort: bool,
 }
 
 impl C10 {
@@ -102,6 +105,9 @@ impl C10 {
         rep: &mut CaseReport,
     ) -> Result<(Vec<usize>, StepResult), Failure> {
         let mut session = Session::new(c.u.clone(), rt, None);
+        if self.reentrant_sort {
+            session.provider().probe.set(crate::provider::SortProbe::Deps);
+        }
         let res = session.solve(&c.problem, Cancel::Never, false, false);
         rep.evaluations += 1;
         let what = format!("schedule {rt:?}");
@@ -229,7 +235,7 @@ impl C10 {
     }
 }
 
-struct_property!(C10, "C10", "tape -> universe + problem; the provider's futures are owned by the harness scheduler: (sampled stage) FIFO, LIFO, complete-everything and 3 generated completion orders (incl. immediately-ready calls); (exhaustive stage) EVERY interleaving of small cases by DFS over the scheduler's choice tree (capped, cap counted). For every schedule: solve terminates (deadlock = root pending, not woken, nothing outstanding; step budget), the verdict equals the reference resolver's, Ok(S) passes the C01 predicate, and no get_candidates / get_dependencies key is requested twice. Non-trivial: >=2 quiescent points with >=2 outstanding requests and a completion order different from issue order. Distinct = distinct hash of case.");
+struct_property!(C10, "C10", "tape -> universe + problem; the provider's futures are owned by the harness scheduler: (sampled stage) FIFO, LIFO, complete-everything and 3 generated completion orders (incl. immediately-ready calls); (reentrant-sort stage) the same with a provider whose sort_candidates itself asks the SolverCache for the dependencies of the candidates it sorts and for the candidates of the packages those mention (conda-style ranking; such nested requests can be the first request for a package); (exhaustive stage) EVERY interleaving of small cases by DFS over the scheduler's choice tree (capped, cap counted). For every schedule: solve terminates (deadlock = root pending, not woken, nothing outstanding; step budget), the verdict equals the reference resolver's, Ok(S) passes the C01 predicate, and no get_candidates / get_dependencies key is requested twice. Non-trivial: >=2 quiescent points with >=2 outstanding requests and a completion order different from issue order. Distinct = distinct hash of case.");
 
 // =============================================================================== C11
 
@@ -452,8 +458,15 @@ impl C12 {
     }
 
     fn check(&self, sc: &StructCase, c: &Case, rep: &mut CaseReport) {
+        // half of the cases: the provider's version_sets_in_union iterator has no upper size
+        // bound (legal for an `impl Iterator`; it changes how the members are awaited)
+        let unbounded = sc.extra.get(95).map_or(false, |v| v & 1 == 1);
+        if unbounded {
+            rep.labels.push("union-iterator-without-upper-bound");
+        }
         // dry run: how many polls does the undisturbed solve make?
         let mut session = Session::new(c.u.clone(), &sc.rt, None);
+        session.provider().union_iter_unbounded.set(unbounded);
         let dry = session.solve(&c.problem, Cancel::Never, false, false);
         rep.evaluations += 1;
         if let Some(f) = abnormal(&dry.outcome, Cancel::Never) {
@@ -497,6 +510,7 @@ impl C12 {
             for sticky in [false, true] {
                 let cancel = if sticky { Cancel::Sticky(k) } else { Cancel::Transient(k) };
                 let mut session = Session::new(c.u.clone(), &sc.rt, None);
+                session.provider().union_iter_unbounded.set(unbounded);
                 let res = session.solve(&c.problem, cancel, false, false);
                 rep.evaluations += 1;
                 let what = format!("cancellation {cancel:?} (undisturbed run makes {total} polls)");
